@@ -24,7 +24,7 @@ EXPECT = {
     "C03": E("Load", "DoCompute", "Resize", "Lock"), "C04": E("Load", "DoCompute", "Resize"),
     "C05": E("DoCompute", "Cache"), "C07": E("Range"), "C08": E("DoCompute", "Resize"),
     "C10": E("Load", "DoCompute"), "C11": E("DoCompute", "Resize", "Alloc"),
-    "C13": E("DoCompute", "Resize", "Range", "Lock"), "C14": E("Load", "DoCompute", "Resize", "Range", "Lock", "Cache", "Ctor"),
+    "C13": E("DoCompute", "Resize", "Range", "Lock", "Cache"), "C14": E("Load", "DoCompute", "Resize", "Range", "Lock", "Cache", "Ctor"),
     "C15": E("Ctor", "Cache"), "C16": E("Load"),
 }
 
@@ -157,6 +157,7 @@ def c03(run):
     run.oblige("go build -overlay of the harness from the working tree (sched mode)", h is not None, err)
     if usable and h:
         sched_runs(run, h, ("map",), "", ("NONLIN", "PREFILL"), quick=(600, 6))
+        sched_runs(run, h, ("map",), "shrink", ("NONLIN", "PREFILL"), quick=(150, 8))
         trace_runs(run, h, ("map",))
     lh = with_harness(run, "layout")
     if usable and lh:
@@ -170,6 +171,7 @@ def c04(run):
     run.oblige("go build -overlay of the harness from the working tree (sched mode)", h is not None, err)
     if usable and h:
         sched_runs(run, h, ("mapof",), "", ("NONLIN", "PREFILL"), quick=(600, 6))
+        sched_runs(run, h, ("mapof",), "shrink", ("NONLIN", "PREFILL"), quick=(150, 8))
         trace_runs(run, h, ("mapof",))
     lh = with_harness(run, "layout")
     if usable and lh:
@@ -253,12 +255,14 @@ def c08(run):
     lh = with_harness(run, "layout")
     ch = with_harness(run, "clock")
     if usable and lh:
-        seq_map_runs(run, lh, None, quick=(10, 300))
+        # black-box runs include tables presized to 16 / 32 counter stripes
+        seq_map_runs(run, lh, ch, quick=(10, 300))
     if usable and ch:
         seq_cache_runs(run, ch, quick=(400, 40))
     if usable and h:
         sched_runs(run, h, ALL_KINDS, "", ("SIZE", "COUNT", "CLEAR"), quick=(100, 6), lin=False)
         sched_runs(run, h, ALL_KINDS, "range", ("SIZE", "COUNT", "CLEAR"), quick=(30, 6), lin=False)
+        sched_runs(run, h, ALL_KINDS, "shrink", ("SIZE", "COUNT", "CLEAR"), quick=(40, 8), lin=False)
         trace_runs(run, h, ("map", "mapof"), quick=(40, 4))
     return R.finish(run, GAPS.get("C08", []))
 
@@ -311,6 +315,10 @@ def c13(run):
         tags = ("DEADLOCK", "STEP-BUDGET", "HANG", "PANIC")
         for focus in ("", "range", "racers"):
             sched_runs(run, h, ALL_KINDS, focus, tags, quick=(50, 6), lin=False)
+        # the evicted callback calls Get / Set / Count of the same cache
+        sched_runs(run, h, ("cache", "cacheof"), "reenter", tags, quick=(60, 6), lin=False)
+        # stale shrink requests: the give-up branch of resize must still wake the waiters
+        sched_runs(run, h, ALL_KINDS, "shrink", tags, quick=(60, 8), lin=False)
         trace_runs(run, h, ("map", "mapof"))
     return R.finish(run, GAPS.get("C13", []))
 
